@@ -6,7 +6,8 @@
   T3 flipcmp  every `a < b` becomes `b > a` (and <=, >, >= likewise)
   T4 reformat ast.unparse of every module (drops comments, normalises layout)
   T5 loglines a logger.debug line after every simple statement of non-kernel functions
-  T6 return   `return <expr>` becomes `result_ = <expr>; return result_`"""
+  T6 return   `return <expr>` becomes `result_ = <expr>; return result_`
+  T7 alias    `x_a = self.x` at the top of simple methods for attributes they only read; reads use the alias"""
 import ast
 from pathlib import Path
 
@@ -129,7 +130,39 @@ class ReturnViaLocal(ast.NodeTransformer):
         return fn
 
 
-TRANSFORMS = {"T1": Rename, "T2": Commute, "T3": FlipCmp, "T4": Ident, "T5": LogLines, "T6": ReturnViaLocal}
+class AliasSelf(ast.NodeTransformer):
+    """`x_ = self.x` at the top of every non-kernel method for attributes that the method only reads; reads use the alias"""
+    def visit_FunctionDef(self, fn):
+        if not fn.args.args or fn.args.args[0].arg != "self" or fn.name.startswith("__"): return fn
+        if any(isinstance(d, ast.Name) and d.id in ("property","classmethod","abstractmethod") for d in fn.decorator_list): return fn
+        if any(isinstance(n,(ast.FunctionDef,ast.Lambda)) and n is not fn for n in ast.walk(fn)): return fn
+        if any(isinstance(n, ast.Attribute) and isinstance(n.value, ast.Name) and n.value.id=="jax" for n in ast.walk(fn)): return fn
+        written=set(); read={}
+        for n in ast.walk(fn):
+            if isinstance(n, ast.Attribute) and isinstance(n.value, ast.Name) and n.value.id=="self":
+                if isinstance(n.ctx,(ast.Store,ast.Del)): written.add(n.attr)
+                else: read.setdefault(n.attr,[]).append(n)
+        # calls on self may write anything: only alias in functions without self-calls
+        for n in ast.walk(fn):
+            if isinstance(n, ast.Call) and isinstance(n.func, ast.Attribute) and isinstance(n.func.value, ast.Name) and n.func.value.id=="self": return fn
+            if isinstance(n, ast.Call) and isinstance(n.func, ast.Attribute) and isinstance(n.func.value, ast.Call): return fn
+        names=[a for a in read if a not in written]
+        if not names: return fn
+        class R(ast.NodeTransformer):
+            def visit_Attribute(s, n):
+                s.generic_visit(n)
+                if isinstance(n.value, ast.Name) and n.value.id=="self" and n.attr in names and isinstance(n.ctx, ast.Load):
+                    return ast.Name(id=n.attr+"_a", ctx=ast.Load())
+                return n
+        doc = fn.body[:1] if (fn.body and isinstance(fn.body[0], ast.Expr) and isinstance(fn.body[0].value, ast.Constant)) else []
+        rest = fn.body[len(doc):]
+        rest=[R().visit(s) for s in rest]
+        pre=[ast.parse(f"{a}_a = self.{a}").body[0] for a in names]
+        fn.body=doc+pre+rest
+        return fn
+
+
+TRANSFORMS = {"T7": AliasSelf, "T1": Rename, "T2": Commute, "T3": FlipCmp, "T4": Ident, "T5": LogLines, "T6": ReturnViaLocal}
 
 
 def overlay_for(tname, root):
